@@ -199,9 +199,13 @@ def c17_keys(klepto, job):
     rng = random.Random(job['shuffle_seed'])
     out = []
     for cell in job['cells']:
-        tgt = keymon.Target(cell['spec'], 'func')
+        tgt = keymon.Target(cell['spec'], cell.get('tkind', 'func'))
         case = {'keymap': cell['keymap'], 'deco': cell.get('deco', 'inf'), 'safe': cell.get('safe', False),
                 'ignore': cell.get('ignore')}
+        if job['shuffle_seed'] % 2 == 0:
+            # process state differs between sessions: here a sibling function (same code object, other
+            # defaults) has been used through klepto before the function under test
+            tgt.use_elder(keymon.make_deco(case), keymon.make_keygen(case))
         f = tgt.decorate(keymon.make_deco(case))
         kg = keymon.make_keygen(case)(tgt.plain)
         keys = []
@@ -230,7 +234,9 @@ def c17_session(klepto, job):
         arch = archmon.public_open(b, root, False)
         # results must be storable: sqlite / json / source-text take scalars only
         rm = gen.result_mode(b)
-        tgt = keymon.Target(cell['spec'], 'func', rmode=('falsy' if rm == 'tuple' else rm))
+        tgt = keymon.Target(cell['spec'], cell.get('tkind', 'func'), rmode=('falsy' if rm == 'tuple' else rm))
+        if job['shuffle_seed'] % 2 == 0:
+            tgt.use_elder(keymon.make_deco({'keymap': cell['keymap'], 'deco': 'inf', 'safe': False, 'ignore': cell.get('ignore')}))
         fn = tgt.plain
         mod = klepto.safe if cell.get('safe') else klepto
         cls = getattr(mod, cell['deco'] + '_cache')
@@ -501,6 +507,8 @@ def gen_cells_c17(rng, n, with_backend=False):
             calls.append([enc(a), enc(k)])
         cell = {'spec': spec, 'keymap': km, 'calls': calls, 'deco': rng.choice(['inf', 'lru', 'lfu', 'mru', 'rr', 'no']),
                 'safe': rng.random() < 0.3}
+        if rng.random() < 0.25:
+            cell['tkind'] = 'sibling'
         if rng.random() < 0.3:
             names = keymon.spec_names(spec) + [x[0] for x in spec['kwonly']]
             if names:
@@ -615,7 +623,7 @@ def run_c17_sessions(rng, ncells, root, viol, cnt, directed=False, cells=None):
         c['root'] = os.path.join(root, 'sess%d' % i)
     ra = spawn({'job': 'c17-session', 'cells': cells, 'shuffle_seed': 11}, root, 'sessA',
                env_extra={'PYTHONHASHSEED': '0'}, timeout=600)
-    rb = spawn({'job': 'c17-session', 'cells': cells, 'shuffle_seed': 97}, root, 'sessB',
+    rb = spawn({'job': 'c17-session', 'cells': cells, 'shuffle_seed': 98}, root, 'sessB',
                env_extra={'PYTHONHASHSEED': str(rng.randrange(1, 4000000))}, timeout=600)
     if 'child_failed' in ra or 'child_failed' in rb:
         viol.append({'property': 'C17', 'kind': 'session-process-failed', 'mech': [],
